@@ -1826,7 +1826,12 @@ def _explain(case, result):
             out.append("K1")   # the oracle itself checked that what came back is the normalised literal
         elif tag == "n3-sparql" and inv and all(isinstance(t, Literal) and _U_ESC.search(str(t)) for t in inv):
             out.append("K2")
-        elif (tag == "n3-sparql" or (tag in ("n3-from_n3", "n3-turtle", "n3-nsm") and case.get("env") == "nonorm")) \
+        elif (tag == "n3-sparql" or (tag in ("n3-from_n3", "n3-turtle", "n3-nsm") and
+                                     (case.get("env") == "nonorm" or
+                                      # since C09-F13 a non-finite form is not in the lexical space of xsd:decimal any more
+                                      # (value None), so no reader normalises "INF"^^xsd:decimal back to "Infinity": the
+                                      # respelling is visible in the default environment too, for xsd:decimal only
+                                      all(isinstance(t, Literal) and str(t.datatype) == "http://www.w3.org/2001/XMLSchema#decimal" for t in inv)))) \
                 and inv and all(isinstance(t, Literal) and _respelt(t) for t in inv) and "raised" not in v:
             out.append("K5")   # readers that keep lexical forms: the SPARQL parser, or any reader with NORMALIZE_LITERALS off
         elif tag in _ORDER_TAGS and any(_is_nan_lit(t) for t in inv):
